@@ -80,6 +80,7 @@ pub fn e1_stats(scn: &E1Scn, d: &Digest, out: &RunOut, stats: &mut Stats) {
     if scn.senders.len() >= 2 {
         stats.hit("probe:concurrent-senders");
     }
+    stats.add("probe:control-sent-from-inside-a-closure", out.hist.iter().filter(|r| matches!(r.ev, Ev::CtlSend { op, .. } if op >= e1::INNER)).count() as u64);
     stats.add("fault:job-task-stalled", out.hist.iter().filter(|r| matches!(r.ev, Ev::Note { what: "task-stalled", .. })).count() as u64);
 }
 
@@ -238,6 +239,25 @@ fn shrink_e1_raw(s: &E1Scn) -> Vec<E1Scn> {
                 Op::RunAsync { .. } => vec![Op::Run],
                 Op::SetHook { async_ms: Some(_) } => vec![Op::SetHook { async_ms: None }],
                 Op::SetErr { async_ms: Some(_) } => vec![Op::SetErr { async_ms: None }],
+                // a marker that sends from inside the job task: just the marker; the inner control sent from outside
+                // instead; a synchronous / shorter closure; fewer waiters on the inner ticket
+                Op::RunSend { async_ms, inner } => {
+                    let mut v = vec![Op::Run, inner.op.clone()];
+                    match async_ms {
+                        Some(ms) if *ms > 1 => {
+                            v.push(Op::RunSend { async_ms: Some(0), inner: inner.clone() });
+                            v.push(Op::RunSend { async_ms: Some(1), inner: inner.clone() });
+                        }
+                        Some(_) => v.push(Op::RunSend { async_ms: None, inner: inner.clone() }),
+                        None => {}
+                    }
+                    if inner.waiters > 0 {
+                        let mut i2 = inner.clone();
+                        i2.waiters -= 1;
+                        v.push(Op::RunSend { async_ms: *async_ms, inner: i2 });
+                    }
+                    v
+                }
                 _ => vec![],
             };
             for op in simpler {
@@ -366,28 +386,20 @@ impl Check for C04 {
 /// ops that carry a signal number, and how often each number is used in the scenario
 fn sig_uses(scn: &E1Scn) -> std::collections::BTreeMap<i32, Vec<u32>> {
     let mut m: std::collections::BTreeMap<i32, Vec<u32>> = Default::default();
-    for (si, steps) in scn.senders.iter().enumerate() {
-        for (i, st) in steps.iter().enumerate() {
-            let sig = match &st.op {
-                Op::StopSig { sig, .. } | Op::RestartSig { sig, .. } | Op::TryRestartSig { sig, .. } | Op::Signal { sig } => Some(*sig),
-                _ => None,
-            };
-            if let Some(sig) = sig {
-                m.entry(expected_os_signal(sig)).or_default().push(E1Scn::op_id(si, i));
-            }
+    for (id, _, _, st) in scn.all_ops() {
+        let sig = match &st.op {
+            Op::StopSig { sig, .. } | Op::RestartSig { sig, .. } | Op::TryRestartSig { sig, .. } | Op::Signal { sig } => Some(*sig),
+            _ => None,
+        };
+        if let Some(sig) = sig {
+            m.entry(expected_os_signal(sig)).or_default().push(id);
         }
     }
     m
 }
 
 fn all_ops(scn: &E1Scn) -> Vec<(u32, usize, usize, &Step)> {
-    let mut v = Vec::new();
-    for (si, steps) in scn.senders.iter().enumerate() {
-        for (i, st) in steps.iter().enumerate() {
-            v.push((E1Scn::op_id(si, i), si, i, st));
-        }
-    }
-    v
+    scn.all_ops()
 }
 
 /// largest virtual duration an installed async spawn hook or async error handler can add to a control
@@ -407,7 +419,7 @@ fn hook_slack(scn: &E1Scn) -> u64 {
 /// upper bound on the virtual time the job task can spend inside closures, hooks and handlers
 fn busy_bound(scn: &E1Scn) -> u64 {
     let ops = all_ops(scn);
-    let run_async: u64 = ops.iter().map(|o| if let Op::RunAsync { ms } | Op::RunStall { ms } = o.3.op { ms } else { 0 }).sum();
+    let run_async: u64 = ops.iter().map(|o| o.3.op.marker_ms()).sum();
     let capable = ops.iter().filter(|o| o.3.op.spawn_capable()).count() as u64;
     // (a process that is slow to die keeps the job task inside the control that killed it: slow-death fault)
     let kills: u64 = ops.iter().filter(|o| o.3.op.spawn_capable() || matches!(o.3.op, Op::Stop | Op::StopSig { .. } | Op::Delete | Op::DeleteNow)).count() as u64;
@@ -1039,9 +1051,10 @@ pub fn oracle_c07(scn: &E1Scn, d: &Digest, out: &RunOut, stats: &mut Stats) -> V
         }
         // (d) a marker's ticket resolves no later than the marker's completion (and not before it ran)
         if st.op.is_marker() {
-            let done = match st.op {
-                Op::Run | Op::RunStall { .. } => d.marker_start.get(&id).and_then(|v| v.first()).map(|m| m.0),
-                _ => d.marker_end.get(&id).and_then(|v| v.first()).map(|m| m.0),
+            let done = if st.op.sync_marker() {
+                d.marker_start.get(&id).and_then(|v| v.first()).map(|m| m.0)
+            } else {
+                d.marker_end.get(&id).and_then(|v| v.first()).map(|m| m.0)
             };
             match done {
                 Some(t) => {
@@ -1316,9 +1329,10 @@ pub fn oracle_c10(scn: &E1Scn, d: &Digest, stats: &mut Stats) -> Vec<Violation> 
                     continue;
                 }
                 let eid = E1Scn::op_id(si, j);
-                let done_seq = match earlier.op {
-                    Op::Run | Op::RunStall { .. } => d.marker_start.get(&eid).and_then(|v| v.first()).map(|m| m.1),
-                    _ => d.marker_end.get(&eid).and_then(|v| v.first()).map(|m| m.1),
+                let done_seq = if earlier.op.sync_marker() {
+                    d.marker_start.get(&eid).and_then(|v| v.first()).map(|m| m.1)
+                } else {
+                    d.marker_end.get(&eid).and_then(|v| v.first()).map(|m| m.1)
                 };
                 stats.hit("probe:ticket-implies-earlier-judged");
                 if done_seq.map(|s| s > first.2).unwrap_or(true) {
@@ -1328,6 +1342,42 @@ pub fn oracle_c10(scn: &E1Scn, d: &Digest, stats: &mut Stats) -> Vec<Violation> 
                         format!("sender {si}: ticket of op {id} ({}) resolved at #{} but the earlier-sent op {eid} had not completed (completion: {done_seq:?})", st.op.name(), first.2),
                     ));
                 }
+            }
+        }
+    }
+    // (1b) re-entrant sends: a marker sent from inside a closure on the job task is queued behind everything queued
+    // before it and ahead of everything queued after it, whoever the other sender is (a send is one atomic step:
+    // logged, then queued, so the log order of sends is the queue order)
+    if scn.has_reentrant() {
+        let mut sent: Vec<(u32, u32)> = all_ops(scn).iter().filter(|o| o.3.op.is_marker()).filter_map(|o| d.send.get(&o.0).map(|s| (s.1, o.0))).collect();
+        sent.sort();
+        let mut last: Option<(u32, u32)> = None;
+        let mut skipped: Option<u32> = None;
+        for (_, id) in sent {
+            match d.marker_start.get(&id).and_then(|v| v.first()) {
+                Some(m) => {
+                    stats.hit("probe:reentrant-fifo-judged");
+                    if let Some((pid, pseq)) = last {
+                        if m.1 < pseq && (id >= e1::INNER || pid >= e1::INNER) {
+                            vs.push(Violation::new(
+                                "same-priority-reordered",
+                                "reentrant",
+                                format!("op {id} ran (#{}) before op {pid} (#{pseq}), which was queued earlier (one of them was sent from inside a closure on the job task)", m.1),
+                            ));
+                        }
+                    }
+                    if let Some(sk) = skipped {
+                        if id >= e1::INNER || sk >= e1::INNER {
+                            vs.push(Violation::new(
+                                "earlier-control-skipped",
+                                "reentrant",
+                                format!("op {id} ran although op {sk}, queued earlier at the same priority, never ran (one of them was sent from inside a closure on the job task)"),
+                            ));
+                        }
+                    }
+                    last = Some((id, m.1));
+                }
+                None => skipped = Some(id),
             }
         }
     }
@@ -1353,7 +1403,7 @@ pub fn oracle_c10(scn: &E1Scn, d: &Digest, stats: &mut Stats) -> Vec<Violation> 
             }
         }
         // ... and the job ends at that very instant unless a control that takes virtual time was in progress
-        let busy = hook_slack(scn) > 0 || all_ops(scn).iter().any(|o| matches!(o.3.op, Op::RunAsync { ms } | Op::RunStall { ms } if ms > 0));
+        let busy = hook_slack(scn) > 0 || all_ops(scn).iter().any(|o| o.3.op.marker_ms() > 0);
         if !busy && d.children.iter().all(|c| c.faults == 0) {
             match d.task_end {
                 Some((g, _, _)) if g == qt => stats.hit("probe:delete-now-immediate"),
